@@ -29,6 +29,9 @@ def scenarios(tier):
     # the user kills a whole invocation (process tree) part-way while a second one wants the same target
     L.append((SC.scn("S6-tree-kill-vs-second-invocation", w["chain"], ["redo-ifchange top", "redo-ifchange top"],
                      visible=VIS, kill_roots=["T0"], expect_ok=["T1"]), 1 if q else 2))
+    # two invocations reach one file through different names of its directory (a symbolic link): still one lock
+    wl = World("one-link", {"s": ["0", "1"], "d/k": ["0"]}, {"d/y.do": [S(deps=["../s"])]}, ["d/y"], ["d/y"], symlinks={"ld": "d"})
+    L.append((SC.scn("S7-two-names-of-one-directory", wl, ["redo-ifchange ld/y", "redo-ifchange d/y"], visible=VIS), 1 if q else 2))
     if not q:
         L.append((SC.scn("S6b-tree-kill-shared-dep", w["shared"], ["redo-ifchange t1", "redo-ifchange t2"],
                          visible=VIS, kill_roots=["T0"], expect_ok=["T1"]), 2))
